@@ -28,31 +28,35 @@ Inductive binstr :=
 
 Record bprog := { bp_temps : Z; bp_min : Z; bp_max : Z; bp_live : list Z; bp_code : list binstr }.
 
+(** [bc_lo]/[bc_hi]: extreme positions of the pointer so far (instrumentation for C10: together
+    with the access window they bound the cells a run can touch; no instruction reads them) *)
 Record bcst := {
-  bc_tape : tmap; bc_ptr : Z; bc_tmps : tmap; bc_pc : Z; bc_io : iost; bc_budget : Z
+  bc_tape : tmap; bc_ptr : Z; bc_tmps : tmap; bc_pc : Z; bc_io : iost; bc_budget : Z;
+  bc_lo : Z; bc_hi : Z
 }.
 Definition bc0 (budget : Z) : bcst :=
-  {| bc_tape := tempty; bc_ptr := 0; bc_tmps := tempty; bc_pc := 0; bc_io := io0; bc_budget := budget |}.
+  {| bc_tape := tempty; bc_ptr := 0; bc_tmps := tempty; bc_pc := 0; bc_io := io0; bc_budget := budget; bc_lo := 0; bc_hi := 0 |}.
 
 Definition bc_mem (s : bcst) (k : Z) : Z := tget (bc_tape s) (bc_ptr s + k).
 Definition bc_set_mem (s : bcst) (k v : Z) : bcst :=
   {| bc_tape := tset (bc_tape s) (bc_ptr s + k) v; bc_ptr := bc_ptr s; bc_tmps := bc_tmps s;
-     bc_pc := bc_pc s; bc_io := bc_io s; bc_budget := bc_budget s |}.
+     bc_pc := bc_pc s; bc_io := bc_io s; bc_budget := bc_budget s; bc_lo := bc_lo s; bc_hi := bc_hi s |}.
 Definition bc_set_tmp (s : bcst) (t v : Z) : bcst :=
   {| bc_tape := bc_tape s; bc_ptr := bc_ptr s; bc_tmps := tset (bc_tmps s) t v;
-     bc_pc := bc_pc s; bc_io := bc_io s; bc_budget := bc_budget s |}.
+     bc_pc := bc_pc s; bc_io := bc_io s; bc_budget := bc_budget s; bc_lo := bc_lo s; bc_hi := bc_hi s |}.
 Definition bc_set_pc (s : bcst) (pc : Z) : bcst :=
   {| bc_tape := bc_tape s; bc_ptr := bc_ptr s; bc_tmps := bc_tmps s;
-     bc_pc := pc; bc_io := bc_io s; bc_budget := bc_budget s |}.
+     bc_pc := pc; bc_io := bc_io s; bc_budget := bc_budget s; bc_lo := bc_lo s; bc_hi := bc_hi s |}.
 Definition bc_set_io (s : bcst) (i : iost) : bcst :=
   {| bc_tape := bc_tape s; bc_ptr := bc_ptr s; bc_tmps := bc_tmps s;
-     bc_pc := bc_pc s; bc_io := i; bc_budget := bc_budget s |}.
+     bc_pc := bc_pc s; bc_io := i; bc_budget := bc_budget s; bc_lo := bc_lo s; bc_hi := bc_hi s |}.
 Definition bc_move (s : bcst) (d : Z) : bcst :=
   {| bc_tape := bc_tape s; bc_ptr := bc_ptr s + d; bc_tmps := bc_tmps s;
-     bc_pc := bc_pc s; bc_io := bc_io s; bc_budget := bc_budget s |}.
+     bc_pc := bc_pc s; bc_io := bc_io s; bc_budget := bc_budget s;
+     bc_lo := Z.min (bc_lo s) (bc_ptr s + d); bc_hi := Z.max (bc_hi s) (bc_ptr s + d) |}.
 Definition bc_set_budget (s : bcst) (b : Z) : bcst :=
   {| bc_tape := bc_tape s; bc_ptr := bc_ptr s; bc_tmps := bc_tmps s;
-     bc_pc := bc_pc s; bc_io := bc_io s; bc_budget := b |}.
+     bc_pc := bc_pc s; bc_io := bc_io s; bc_budget := b; bc_lo := bc_lo s; bc_hi := bc_hi s |}.
 
 (** reading an operand; [MemZero] clears the cell *)
 Definition bc_read (w : Z) (s : bcst) (l : loc) : Z * bcst :=
